@@ -66,7 +66,7 @@ class RT:
         self.seen_loops.add(k)
         h = self.spec(k).get("on_entry")
         if h is not None and ns is not None:
-            h(ns)
+            h(ns, it)
         if isinstance(it, (SymSeq, SymRange)):
             return it
         if isinstance(it, SymMap):
